@@ -56,3 +56,9 @@ type Plain struct {
 	Op Op
 	L  []string
 }
+
+// KNode is recursive through a map keyed by an enum.
+type KNode struct {
+	Label    string
+	Children map[Op]KNode
+}
